@@ -1,3 +1,3 @@
-CONSTANTS MaxParams = 1 MaxVars = 1 Pool = "large" MaxCalls = 1 Mutant = "none"
+CONSTANTS MaxParams = 1 MaxVars = 1 Pool = "large" MaxCalls = 1 OptFields = {} MaxPages = 1 Mutant = "none"
 SPECIFICATION Spec
 INVARIANT Emit
